@@ -51,6 +51,14 @@ theorem register_goReg (p : Pool) (o : Obj) :
       · exact Or.inl h
     · exact List.nodup_cons.mpr ⟨by simpa using hc, hn⟩
 
+theorem registerNew_goReg (p : Pool) (o : Obj) :
+    (∀ x ∈ (registerNew p o).goReg, x ∈ p.goReg ∨ x = o) ∧ (p.goReg.Nodup → (registerNew p o).goReg.Nodup) := by
+  obtain ⟨h1, h2⟩ := register_goReg (clearFinalizer p o) o
+  refine ⟨fun x hx => ?_, fun hn => h2 (hn.filter _)⟩
+  rcases h1 x hx with h | h
+  · exact Or.inl (List.mem_filter.mp h).1
+  · exact Or.inr h
+
 theorem mark_goReg (p : Pool) (o : Obj) (f r : Bool) :
     (∀ x ∈ (ClonePool.mark p o f r).goReg, x ∈ p.goReg ∨ x = o) ∧
     (p.goReg.Nodup → (ClonePool.mark p o f r).goReg.Nodup) := by
@@ -62,11 +70,11 @@ theorem mark_goReg (p : Pool) (o : Obj) (f r : Bool) :
       · exact ⟨fun x hx => Or.inl hx, id⟩
       · exact ⟨fun x hx => Or.inl (List.mem_of_mem_erase hx), fun hn => hn.erase o⟩
   · split
-    · exact register_goReg p o
-    · show (∀ x ∈ (if (regLookup _ o.key).isNone = true then register p o else p).goReg, _) ∧
-        (_ → (if (regLookup _ o.key).isNone = true then register p o else p).goReg.Nodup)
+    · exact registerNew_goReg p o
+    · show (∀ x ∈ (if (regLookup _ o.key).isNone = true then registerNew p o else p).goReg, _) ∧
+        (_ → (if (regLookup _ o.key).isNone = true then registerNew p o else p).goReg.Nodup)
       split
-      · exact register_goReg p o
+      · exact registerNew_goReg p o
       · exact ⟨fun x hx => Or.inl hx, id⟩
 
 theorem fire_goReg (p : Pool) (o : Obj) (ho : o ∈ p.goReg) : (ClonePool.fire p o).goReg = p.goReg.erase o := by
